@@ -208,6 +208,8 @@ package sql
 //@   ensures fresh-context: result1 == nil ==> c.Conn.txCtx != nil && c.Conn.txCtx.BranchID == 0 && c.Conn.txCtx.RoundImages != nil && len(c.Conn.txCtx.RoundImages.before) == 0 && len(c.Conn.txCtx.RoundImages.after) == 0 && !c.Conn.autoCommit
 //@   ensures at-tx: result1 == nil ==> isT(result0, *ATTx) && result0.(*ATTx) != nil && result0.(*ATTx).tx != nil && result0.(*ATTx).tx.tranCtx == c.Conn.txCtx && result0.(*ATTx).tx.conn == c.Conn && result0.(*ATTx).tx.target != nil && ghost.dtx == 1
 //@   ensures begin-failure: result1 != nil ==> ghost.dtx == old(ghost.dtx)
+//@   let auto0 := c.Conn.autoCommit
+//@   ensures failed-begin-stays-in-autocommit-mode: result1 != nil ==> c.Conn.autoCommit == auto0
 
 // ---------------------------------------------------------------------------------------------
 // C17: XA branches. Environment (assumed): the XA resource of the target connection as a state
